@@ -554,17 +554,45 @@ def size_probe(params):
     ops.append({"k": "raw", "p": W.mp_columnar("t", {"v": [1]}).hex()})
     expect.append((True, len(bytes.fromhex(ops[-1]["p"]))))
     out = W.run_harness(PID, {"mode": "write", "logs": [{"id": 900, "max_size": 0, "nofiles": True, "ops": ops}]}, "sizeprobe", timeout=1500)
+    if not out.get("logs"):
+        raise vlib.TieBroken("size probe: the harness returned no log")
     lo = out["logs"][0]
+    lo = {"errs": lo.get("errs") or [], "sizes": lo.get("sizes") or [], "counts": lo.get("counts") or []}
     want_codes = [0 if ok else 1 for ok, _ in expect]
-    want_size = HDR + sum(16 + d for ok, d in expect if ok)
+    # file layout by the rule of Model.rotate_split with the default MaxSizeBytes (100 MB): a file is closed as soon
+    # as its size reaches the limit, so every 100 MB entry gets a file of its own
+    maxsize = 100 * 1024 * 1024
+    want_sizes, want_counts, size, cnt = [], [], HDR, 0
+    for okk, d in expect:
+        if okk:
+            size += 16 + d
+            cnt += 1
+            if size >= maxsize:
+                want_sizes.append(size)
+                want_counts.append(cnt)
+                size, cnt = HDR, 0
+    want_sizes.append(size)
+    want_counts.append(cnt)
     got_codes = [outcome_code(e) for e in lo["errs"]]
-    ok = got_codes == want_codes and lo["sizes"] == [want_size] and lo["counts"] == [sum(1 for okk, _ in expect if okk)]
-    return ok, {"ops": [(o["k"], o["db"], o.get("n") or len(o["p"]) // 2) for o in ops], "expected_outcomes": want_codes, "observed_outcomes": got_codes,
-                "expected_file_size": want_size, "observed_file_sizes": lo["sizes"], "expected_entries": sum(1 for okk, _ in expect if okk),
-                "observed_entries": lo["counts"], "errs": lo["errs"]}
+    ok = got_codes == want_codes and lo["sizes"] == want_sizes and lo["counts"] == want_counts
+    return ok, {"ops": [(o["k"], o.get("db", ""), o.get("n") or len(o.get("p", "")) // 2) for o in ops], "expected_outcomes": want_codes,
+                "observed_outcomes": got_codes, "expected_file_sizes": want_sizes, "observed_file_sizes": lo["sizes"],
+                "expected_entries_per_file": want_counts, "observed_entries_per_file": lo["counts"], "errs": [e[:80] for e in lo["errs"]]}
 
 
 def run(res, tier, seed):
+    """No Python exception escapes: anything unexpected in the machinery is an InfraError (check.py exits 2 and says
+    so), a tie that cannot be established is a TieBroken (VIOLATION ... no-failing-input-found)."""
+    try:
+        _run(res, tier, seed)
+    except (vlib.TieBroken, vlib.InfraError):
+        raise
+    except Exception as e:          # noqa: BLE001
+        import traceback
+        raise vlib.InfraError("unexpected %s in tools/props/C06.py: %s\n%s" % (type(e).__name__, e, traceback.format_exc()[-1500:]))
+
+
+def _run(res, tier, seed):
     rng = random.Random(seed * 7919 + 6)
     t0 = time.time()
     try:
